@@ -1230,3 +1230,89 @@ func (n *Net) RecipeCommitThenRoundSkip() string {
 	rsv = n.Nodes[victim].CS.GetRoundState()
 	return fmt.Sprintf("done(mode=%d,others-decided=%v,victim-step=%v,victim-round-moved=%v)", mode, decided == len(others), rsv.Step, rsv.Round != round)
 }
+
+// RecipePolkaBeforeOwnPrevote: one correct node (the victim) never receives the
+// proposal of the round, but receives everybody else's prevotes for the proposed
+// block while it is still in the propose step: the polka is complete in its vote
+// set before it casts its own (nil) prevote.  The other correct nodes precommit
+// the block; without the victim (and with the faulty validators silent) they have
+// no +2/3.  After synchrony the victim must still get going again.
+func (n *Net) RecipePolkaBeforeOwnPrevote() string {
+	if len(n.Order) < 3 {
+		return "n/a"
+	}
+	lo, hi := n.MinMaxHeight()
+	if lo != hi {
+		return "heights-differ"
+	}
+	h := hi
+	if !n.startRound(h) {
+		return "cannot-start-round"
+	}
+	victim := n.Order[n.R.Intn(len(n.Order))]
+	round := n.Nodes[victim].CS.GetRoundState().Round
+	for _, i := range n.Order {
+		if n.Nodes[i].CS.GetRoundState().Round != round {
+			return "rounds-differ"
+		}
+	}
+	prop := n.ProposerAt(n.Nodes[victim], round)
+	if prop == victim {
+		return "victim-is-proposer"
+	}
+	others := []int{}
+	for _, i := range n.Order {
+		if i != victim {
+			others = append(others, i)
+		}
+	}
+	if n.IsFaulty[prop] {
+		kb := n.ByzBlock(n.Nodes[others[0]], prop, round, 7, "")
+		if kb == nil {
+			return "byz-cannot-build"
+		}
+		msgs := n.ProposalMsgs(prop, kb, h, round, -1)
+		for _, i := range others {
+			n.Send(prop, i, msgs...)
+		}
+	}
+	n.DeliverWhere(2000, func(e *Envelope) bool { return isProposalOrPart(e) && e.To != victim })
+	rso := n.Nodes[others[0]].CS.GetRoundState()
+	if rso.ProposalBlock == nil || rso.ProposalBlockParts == nil {
+		return "no-proposal-block"
+	}
+	bid := types.BlockID{Hash: rso.ProposalBlock.Hash(), PartSetHeader: rso.ProposalBlockParts.Header()}
+	vals := rso.Validators
+	now := time.Now()
+	// the faulty validators prevote the block (towards everybody) and then fall silent
+	for _, g := range n.Faulty {
+		if n.ValIndex(vals, g) < 0 {
+			continue
+		}
+		pv := n.SignVote(vals, g, tmproto.PrevoteType, h, round, bid, now)
+		for _, j := range n.Order {
+			n.Send(g, j, &cs.VoteMessage{Vote: pv})
+		}
+	}
+	// every prevote reaches the victim while it is still waiting for the proposal
+	if rs := n.Nodes[victim].CS.GetRoundState(); rs.Step != cstypes.RoundStepPropose {
+		return "victim-not-in-propose"
+	}
+	n.DeliverWhere(4000, func(e *Envelope) bool {
+		v, ok := isVote(e, tmproto.PrevoteType)
+		return ok && v.Height == h && v.Round == round
+	})
+	rsv := n.Nodes[victim].CS.GetRoundState()
+	if _, ok := rsv.Votes.Prevotes(round).TwoThirdsMajority(); !ok || rsv.Step != cstypes.RoundStepPropose {
+		return "no-polka-before-own-prevote"
+	}
+	// only now its propose timeout fires: it prevotes nil with the polka already there
+	n.FireTimeout(victim)
+	n.DeliverWhere(4000, func(e *Envelope) bool {
+		v, ok := isVote(e, tmproto.PrevoteType)
+		return ok && v.Height == h && v.Round == round
+	})
+	rsv = n.Nodes[victim].CS.GetRoundState()
+	_, pending := n.Nodes[victim].Ticker.Pending()
+	return fmt.Sprintf("done(victim-step=%v,victim-has-pending-timeout=%v)", rsv.Step, pending)
+}
